@@ -1257,7 +1257,7 @@ def check_exception_surface(ck, R):
             if isinstance(pk, ast.Call) and A.call_attr(pk) in ("Pickler", "_Pickler") and pk.args:
                 pickled.append((c, c.args[0], pk.args[0]))
     okp = bool(pickled) and all(vp.nodes(c) and vp.xnorm(a) == vp_obj for (c, a, _s) in pickled)
-    rets_p = [r for r in vp.returns() if r.value is not None]
+    rets_p = [r for r in vp.returns() if r.value is not None and vp.nodes(r)]
     for r in rets_p:
         deps = vp.deps(r.value)
         via_value = "call:dumps" in deps
@@ -1541,6 +1541,22 @@ class _Absent:
                                 if self.decide(callee, slot, callee.params[i + off], False, depth + 1)[0]:
                                     events += fa.nodes(n)
                                     break
+            elif isinstance(n, (ast.For, ast.AsyncFor)) and isinstance(n.iter, (ast.Tuple, ast.List)) and isinstance(n.target, ast.Name) \
+                    and any(_slot_expr(x, me) == slot and isinstance(x, ast.Attribute) for x in n.iter.elts):
+                # `for held in (self.a, self.b): held.clear()`: the loop runs its body for the slot; the removal is a statement of
+                # the body that nothing before it can skip
+                for st in n.body:
+                    if isinstance(st, (ast.If, ast.Try, ast.While, ast.For, ast.Return, ast.Raise, ast.Break, ast.Continue, ast.With)):
+                        break
+                    c = st.value if isinstance(st, ast.Expr) else None
+                    if isinstance(c, ast.Call) and isinstance(A.call_recv(c), ast.Name) and A.call_recv(c).id == n.target.id:
+                        nm_ = A.call_attr(c)
+                        if nm_ == "clear" or (nm_ in _REMOVERS and c.args and key_ok(c.args[0])):
+                            events += fa.nodes(n)
+                            break
+                    if isinstance(st, ast.Delete) and any(isinstance(t, ast.Subscript) and isinstance(t.value, ast.Name) and t.value.id == n.target.id
+                                                          and key_ok(t.slice) for t in st.targets):
+                        break  # del held[k] raises where the key is absent: not an unconditional removal for every slot
             elif isinstance(n, ast.Delete):
                 for t in n.targets:
                     if isinstance(t, ast.Subscript) and _slot_expr(t.value, me) == slot and key_ok(t.slice):
